@@ -405,6 +405,14 @@ pub fn generate_c13(rng: &mut Rng, idx: usize, _tier: Tier) -> CaseOut {
             (vec![("check-ai".into(), "must be polite".into())], vec!["a".into()], "check-ai without BLOCKWATCH_AI_API_KEY".to_string())
         }
     };
+    // a third of the malformed rules share their block with a healthy rule that is detected first
+    // (registration order): the malformed one must still be found and must still fail the run
+    let mut attrs = attrs;
+    let mut what = what;
+    if class >= 3 && class != 6 && !attrs.iter().any(|(k, _)| k == "keep-sorted") && rng.chance(1, 3) {
+        attrs.insert(0, ("keep-sorted".into(), "asc".into()));
+        what.push_str(" beside a healthy keep-sorted");
+    }
     let plan = BlockPlan { attrs: attrs.clone(), lines };
     let mut repo = gen_repo(rng, idx, false, Some(plan));
     let (bad_file, _, r0) = &repo.files[0];
